@@ -23,6 +23,7 @@ type schedFile struct {
 	Routing    bool              `json:"routing"`
 	Streams    bool              `json:"streams"`
 	Endpoints  []string          `json:"endpoints"`
+	MaxSlots   int               `json:"maxSlots"`
 	Behaviours [][][]interface{} `json:"behaviours"`
 	// Random walks (used when Behaviours is empty)
 	Walks   int      `json:"walks"`
@@ -32,6 +33,11 @@ type schedFile struct {
 	Writers []string `json:"writers"`
 	Masked  bool     `json:"masked"`
 	Crash   []string `json:"crashers"`
+	Closure bool     `json:"closure"`
+	// C13: encoder sweeps and hostile input
+	EncodeSweeps int  `json:"encodeSweeps"`
+	FullSweep    bool `json:"fullSweep"`
+	Hostile      int  `json:"hostile"`
 }
 
 func str(x interface{}) string {
@@ -93,7 +99,7 @@ func main() {
 	enc := json.NewEncoder(w)
 
 	st := stats{ByOp: map[string]int{}}
-	opts := gsim.Options{Nodes: sf.Nodes, Routing: sf.Routing, Streams: sf.Streams, InitKnown: sf.InitKnown, Endpoints: sf.Endpoints}
+	opts := gsim.Options{Nodes: sf.Nodes, Routing: sf.Routing, Streams: sf.Streams, InitKnown: sf.InitKnown, Endpoints: sf.Endpoints, MaxSlots: sf.MaxSlots}
 
 	emit := func(s *gsim.Step) {
 		if s == nil {
@@ -130,6 +136,14 @@ func main() {
 		beh := beh
 		runOne(func(c *gsim.Cluster) {
 			for _, a := range beh {
+				if len(a) > 0 && str(a[0]) == "Closure" {
+					max := num(a[1])
+					if max < 0 {
+						max = c.MinPacket()
+					}
+					c.Closure(max, num(a[2]), emit)
+					continue
+				}
 				emit(exec(c, a))
 			}
 		})
@@ -139,6 +153,47 @@ func main() {
 		for i := 0; i < sf.Walks; i++ {
 			runOne(func(c *gsim.Cluster) {
 				walk(c, &sf, rng, emit)
+				if sf.Closure {
+					// C03: writes have stopped; fair exchanges with a packet size
+					// between "the largest entry just fits" and "everything fits"
+					max := 0
+					switch rng.Intn(3) {
+					case 0:
+						max = c.MinPacket()
+					case 1:
+						max = c.MinPacket() + rng.Intn(200)
+					}
+					c.Closure(max, 200, emit)
+				}
+			})
+		}
+	}
+
+	if sf.EncodeSweeps > 0 {
+		rng := rand.New(rand.NewSource(*seed + 1000))
+		runOne(func(c *gsim.Cluster) {
+			encodeSweeps(c, rng, sf.EncodeSweeps, sf.FullSweep, emit)
+		})
+	}
+	if sf.Hostile > 0 {
+		rng := rand.New(rand.NewSource(*seed + 2000))
+		for i := 0; i < 1+sf.Hostile/400; i++ {
+			runOne(func(c *gsim.Cluster) {
+				defer func() {
+					if r := recover(); r != nil {
+						if h, ok := r.(gsim.Hang); ok {
+							w.Flush()
+							fmt.Fprintln(os.Stderr, "HANG:", h.What)
+							os.Exit(3)
+						}
+						panic(r)
+					}
+				}()
+				n := sf.Hostile
+				if n > 400 {
+					n = 400
+				}
+				hostile(c, &sf, rng, n, emit)
 			})
 		}
 	}
